@@ -574,6 +574,31 @@ Proof.
   destruct (b =? 0) eqn:E; [lia|]. now rewrite IH.
 Qed.
 
+Lemma nul_pos_spec bs :
+  match nul_pos bs with
+  | Some p => 0 <= p <= zlen bs /\ take p bs = m_until_nul bs
+  | None => m_until_nul bs = bs
+  end.
+Proof.
+  induction bs as [|b r IH]; cbn [nul_pos m_until_nul]; [reflexivity|].
+  destruct (b =? 0).
+  - split; [rewrite zlen_cons; pose proof (zlen_nonneg r); lia|reflexivity].
+  - destruct (nul_pos r) as [p|].
+    + destruct IH as [[A B] C]. split; [rewrite zlen_cons; lia|].
+      unfold take. replace (Z.to_nat (p + 1)) with (S (Z.to_nat p)) by lia. cbn [firstn]. f_equal. exact C.
+    + now rewrite IH.
+Qed.
+
+(* on the register's own bytes (what Register::read passes) the generated String parse is "cut at the first NUL" *)
+Lemma parse_str_exact len data : zlen data = len ->
+  parse_str len data = (let s := m_until_nul data in if is_ascii s then Ok (VBytes s) else Err ME_INVALID_DATA).
+Proof.
+  intros H. unfold parse_str. cbv zeta. pose proof (nul_pos_spec data) as N.
+  destruct (nul_pos data) as [p|].
+  - destruct N as [[A B] C]. destruct (zlen data <? p) eqn:E; [lia|]. now rewrite C.
+  - rewrite H, Z.ltb_irrefl. rewrite take_all by lia. now rewrite N.
+Qed.
+
 Lemma string_roundtrip r s raw : r_ty r = TStr -> 0 <= r_addr r -> r_addr r + r_len r <= zlen raw ->
   (is_ascii s = true -> zlen s <= r_len r ->
    exists raw', reg_write r (VBytes s) raw = Ok raw' /\ zlen raw' = zlen raw /\
@@ -595,6 +620,7 @@ Proof.
       destruct (zlen raw <? r_addr r + r_len r) eqn:E; [lia|]. cbn [bind]. now rewrite Hd, Z.eqb_refl. }
     split; [apply zlen_splice_at; lia|]. split.
     { unfold reg_read. rewrite region_after_write by assumption. cbn [bind]. unfold reg_parse. rewrite Ht.
+      rewrite parse_str_exact by exact Hd. cbv zeta.
       subst data. rewrite until_nul_pad. now rewrite until_nul_ascii. }
     split; [apply splice_at_before; lia|rewrite <- Hd; apply splice_at_after; lia].
   - intros H. unfold reg_write. rewrite Ht. unfold reg_serialize. rewrite Ht.
@@ -1535,6 +1561,7 @@ Proof.
         -- rewrite (proj2 (string_roundtrip r s raw T H0 H2)) by (right; lia). discriminate.
       * rewrite (proj2 (string_roundtrip r s raw T H0 H2)) by (left; exact A). discriminate.
     + unfold reg_read. rewrite Hreg. cbn [bind]. unfold reg_parse. rewrite T.
+      rewrite parse_str_exact by (rewrite zlen_take; [lia|]; rewrite zlen_drop by lia; lia). cbv zeta.
       destruct (is_ascii _); discriminate.
   - (* Bytes *) split.
     + destruct (Z.eq_dec (zlen s) (r_len r)) as [L|L].
@@ -1648,4 +1675,108 @@ Proof.
   pose proof (reg_in_memory md r Hin) as Hm. unfold reg_end in Hm.
   destruct (accepted_never_panics r v (m_raw m) Acc V F H0 H1 ltac:(lia) Hok) as [A B].
   split; [|exact B]. unfold mem_write. destruct (reg_write r v (m_raw m)); cbn [bind]; [discriminate|discriminate|contradiction].
+Qed.
+
+(* ================================================================================ memory holds bytes ===== *)
+(* every reachable raw memory is a vector of bytes (the hypothesis bytes_ok of the typed theorems) *)
+Definition value_bytes (v : value) : Prop := match v with VInt _ => True | VBytes s => bytes_ok s end.
+
+Lemma bytes_ok_repeat0 n : bytes_ok (repeat 0 n).
+Proof. apply repeat_Forall. unfold is_byte. lia. Qed.
+
+Lemma bytes_ok_splice_at off bs mem : bytes_ok bs -> bytes_ok mem -> bytes_ok (splice_at off bs mem).
+Proof.
+  intros Hb Hm. unfold splice_at. apply bytes_ok_app; [apply bytes_ok_take, Hm|].
+  apply bytes_ok_app; [exact Hb|apply bytes_ok_drop, Hm].
+Qed.
+
+Lemma reg_serialize_bytes r v data : value_bytes v -> reg_serialize r v = Ok data -> bytes_ok data.
+Proof.
+  intros Hv H. unfold reg_serialize in H.
+  destruct (r_ty r) eqn:T; destruct v as [z|s]; try discriminate; cbn [value_bytes] in Hv.
+  - destruct (negb (is_ascii s)); [discriminate|]. destruct (zlen s <? r_len r).
+    + apply Ok_inj in H. subst data. apply bytes_ok_app; [exact Hv|apply bytes_ok_repeat0].
+    + destruct (r_len r <? zlen s); [discriminate|]. apply Ok_inj in H. now subst.
+  - destruct (zlen s =? r_len r); [|discriminate]. apply Ok_inj in H. now subst.
+  - apply Ok_inj in H. subst. apply bytes_ok_t_to_bytes.
+  - apply Ok_inj in H. subst. apply bytes_ok_t_to_bytes.
+  - apply Ok_inj in H. subst. apply bytes_ok_t_to_bytes.
+  - destruct (expand_bf _ _ _ _ _ _); [|discriminate]. destruct (gen_masked_int _ _ _); cbn [bind] in H; try discriminate.
+    apply Ok_inj in H. subst. apply bytes_ok_t_to_bytes.
+Qed.
+
+Lemma reg_write_bytes r v raw raw' : value_bytes v -> bytes_ok raw -> reg_write r v raw = Ok raw' -> bytes_ok raw'.
+Proof.
+  intros Hv Hok H. unfold reg_write in H.
+  assert (D : forall data, reg_serialize r v = Ok data ->
+              (let? region := region_of r raw in if zlen data =? r_len r then Ok (splice_at (r_addr r) data raw) else Panic) = Ok raw' ->
+              bytes_ok raw').
+  { intros data S E. destruct (region_of r raw); cbn [bind] in E; try discriminate.
+    destruct (zlen data =? r_len r); [|discriminate]. apply Ok_inj in E. subst raw'.
+    apply bytes_ok_splice_at; [|exact Hok]. eapply reg_serialize_bytes; eauto. }
+  destruct (r_ty r) eqn:T; destruct v as [z|bs];
+    try (destruct (reg_serialize r _) as [data| |] eqn:S; cbn [bind] in H; try discriminate; exact (D data eq_refl H)).
+  destruct (expand_bf MACRO_W bits signed (r_endian r) rawlsb rawmsb) as [c|]; [|discriminate].
+  destruct (gen_masked_int true c z); cbn [bind] in H; try discriminate.
+  destruct (region_of r raw) as [region| |] eqn:R; cbn [bind] in H; try discriminate.
+  destruct (gen_write true c (r_endian r) z region) as [region'| |] eqn:G; cbn [bind] in H; try discriminate.
+  apply Ok_inj in H. subst raw'. apply bytes_ok_splice_at; [|exact Hok].
+  assert (Hr : bytes_ok region).
+  { unfold region_of in R. destruct (_ <? _); [discriminate|]. apply Ok_inj in R. subst region.
+    apply bytes_ok_take, bytes_ok_drop, Hok. }
+  unfold gen_write in G. destruct (gen_masked_int true c z); cbn [bind] in G; try discriminate.
+  destruct (read_scalar _ _ _ _); cbn [bind] in G; try discriminate.
+  destruct (gen_mask true c); cbn [bind] in G; try discriminate.
+  apply Ok_inj in G. subst region'. unfold write_front.
+  apply bytes_ok_app; [apply bytes_ok_take, bytes_ok_t_to_bytes|apply bytes_ok_drop, Hr].
+Qed.
+
+Definition inits_bytes (md : list fragdecl) : Prop :=
+  Forall (fun r => match r_init r with Some v => value_bytes v | None => True end) (all_regs md).
+
+Lemma init_raw_bytes rs : forall raw raw',
+  Forall (fun r => match r_init r with Some v => value_bytes v | None => True end) rs ->
+  bytes_ok raw -> init_raw raw rs = Ok raw' -> bytes_ok raw'.
+Proof.
+  induction rs as [|r rs IH]; intros raw raw' H Hok E; cbn [init_raw] in E; [apply Ok_inj in E; now subst|].
+  inversion H as [|? ? Hr Hrs]; subst. destruct (r_init r) as [v|]; [|eauto].
+  destruct (reg_write r v raw) as [raw1| |] eqn:W; try discriminate.
+  apply (IH raw1 raw' Hrs); [|exact E]. eapply reg_write_bytes; eauto.
+Qed.
+
+Lemma init_frags_bytes fs : forall raw p raw' p',
+  Forall (fun f => Forall (fun r => match r_init r with Some v => value_bytes v | None => True end) (frag_regs f)) fs ->
+  bytes_ok raw -> init_frags raw p fs = Ok (raw', p') -> bytes_ok raw'.
+Proof.
+  induction fs as [|f fs IH]; intros raw p raw' p' H Hok E; cbn [init_frags] in E.
+  - apply Ok_inj in E. injection E as -> ->. exact Hok.
+  - inversion H as [|? ? Hf Hr]; subst.
+    destruct (init_prot p (frag_regs f)); cbn [bind] in E; try discriminate.
+    destruct (init_raw raw (frag_regs f)) as [raw1| |] eqn:R; cbn [bind] in E; try discriminate.
+    apply (IH raw1 a raw' p' Hr); [|exact E]. eapply init_raw_bytes; eauto.
+Qed.
+
+Lemma reachable_bytes md :
+  (forall m, inits_bytes md -> mem_new md = Ok m -> bytes_ok (m_raw m)) /\
+  (forall m r v m', bytes_ok (m_raw m) -> value_bytes v -> mem_write m r v = Ok m' -> bytes_ok (m_raw m')) /\
+  (forall m a buf m', bytes_ok (m_raw m) -> bytes_ok buf -> write_raw m a buf = Ok m' -> bytes_ok (m_raw m')) /\
+  (forall m r a m', bytes_ok (m_raw m) -> mem_set_access_right m r a = Ok m' -> bytes_ok (m_raw m')).
+Proof.
+  split; [|split; [|split]].
+  - intros m Hi E. unfold mem_new in E. cbv zeta in E.
+    destruct (init_frags _ _ md) as [[raw' p']| |] eqn:I; cbn [bind] in E; try discriminate.
+    apply Ok_inj in E. subst m. cbn [m_raw fst].
+    eapply init_frags_bytes; [|apply bytes_ok_repeat0|exact I].
+    apply Forall_forall. intros f Hf. apply Forall_forall. intros r Hr.
+    unfold inits_bytes in Hi. rewrite Forall_forall in Hi. apply Hi. unfold all_regs. apply in_flat_map. eauto.
+  - intros m r v m' Hok Hv E. unfold mem_write in E.
+    destruct (reg_write r v (m_raw m)) as [raw'| |] eqn:W; cbn [bind] in E; try discriminate.
+    apply Ok_inj in E. subst m'. cbn [m_raw]. eapply reg_write_bytes; eauto.
+  - intros m a buf m' Hok Hb E. unfold write_raw in E.
+    destruct (USIZE_MAX <? a + zlen buf); [discriminate|].
+    destruct (prot_verify_range _ _ _); cbn [bind] in E; try discriminate.
+    destruct (prot_range_right _ _ _); cbn [bind] in E; try discriminate.
+    destruct (negb _); [discriminate|]. destruct (slice_get _ _ _); [|discriminate].
+    apply Ok_inj in E. subst m'. cbn [m_raw]. now apply bytes_ok_splice_at.
+  - intros m r a m' Hok E. destruct (proj2 (proj2 (observers_on_write m)) r a m' E) as [_ R]. now rewrite R.
 Qed.
